@@ -1,19 +1,49 @@
-// Package c08: STUB — property C08 is not built yet.
+// Package c08: HTTP/2 relay frame fidelity (shares the harness in internal/h2relay with C09).
 package c08
 
-import "verif/harness/internal/core"
+import (
+	"regexp"
+	"strings"
+
+	"verif/harness/internal/core"
+	"verif/harness/internal/h2relay"
+)
 
 type P struct{}
 
 func init() { core.Register(P{}) }
 
-func (P) ID() string   { return "C08" }
-func (P) Rule() string { return "stub" }
-func (P) Gen(r *core.Rand, tier string, emit func([]string)) {}
-func (P) NewExec() core.Exec                                   { return ex{} }
-func (P) Nontrivial(ops []string, impl []string) bool         { return false }
+func (P) ID() string { return "C08" }
+func (P) Rule() string {
+	return "case = one two-way session of 1..6 interleaved streams (request/response messages with HEADERS, 0..3 DATA padded or not, " +
+		"trailers, RST_STREAM, PRIORITY, server PUSH_PROMISE) fed frame by frame into the two real relays through the verif hook, header " +
+		"blocks cut into 1..4 HEADERS/CONTINUATION fragments, interleaved with SETTINGS (INITIAL_WINDOW_SIZE 0/1/10/65535/2^31-1, " +
+		"MAX_FRAME_SIZE), WINDOW_UPDATE, PING, GOAWAY from either endpoint; three quarters use literal header blocks and are compared " +
+		"line by line with the Lean model, one quarter uses a real hpack.Encoder (oracle only); distinct by hash of the op list; " +
+		"non-trivial when the case has a CONTINUATION, at least two streams and at least one frame that waited in an output queue"
+}
 
-type ex struct{}
+var queued = regexp.MustCompile(`:-?\d+:[dhupr]\d`)
 
-func (ex) Do(op string) core.Result { return core.Result{Impl: "bad-op"} }
-func (ex) Close()                   {}
+func (P) Nontrivial(ops []string, impl []string) bool {
+	cont, waited := false, false
+	sids := map[string]bool{}
+	for _, o := range ops {
+		f := strings.Fields(o)
+		if f[0] == "cont" {
+			cont = true
+		}
+		if (f[0] == "headers" || f[0] == "data") && len(f) > 2 {
+			sids[f[2]] = true
+		}
+	}
+	for _, l := range impl {
+		if queued.MatchString(l) {
+			waited = true
+		}
+	}
+	return cont && waited && len(sids) >= 2
+}
+
+func (P) Gen(r *core.Rand, tier string, emit func([]string)) { h2relay.Gen("C08", r, tier, emit) }
+func (P) NewExec() core.Exec                                 { return h2relay.NewExec("C08") }
